@@ -126,6 +126,38 @@ func listingOrderRule(r *core.Report, rule string, f *core.Func, want token.Toke
 				}
 			}
 		}
+		// the sort may sit in a helper that leaves the slice it is handed sorted: sortNewestFirst(epochs)
+		if !okSort {
+			for _, n := range stmtNodes(g) {
+				for _, c := range nodeCalls(n) {
+					fo := core.Callee(info, c)
+					if fo == nil {
+						continue
+					}
+					h := r.Prog.ByObj[fo.Origin()]
+					if h == nil || h.Body == nil || h == f {
+						continue
+					}
+					for ai, a := range c.Args {
+						if core.ObjOf(info, a) != x || !helperLeavesParamSorted(r.Prog, h, ai, want) {
+							continue
+						}
+						// ... by the element itself
+						byElem := false
+						for _, hn := range stmtNodes(r.Prog.Graph(h)) {
+							for _, si := range sortCalls(h.Pkg.TypesInfo, hn.Ast) {
+								if si.SliceObj == types.Object(h.ParamObj(ai)) && si.Decided && si.Strict && si.Op == want && si.keyIsElement() {
+									byElem = true
+								}
+							}
+						}
+						if byElem && g.Dominates(n, rn) && !reassignedBetween(g, info, n, rn, x) {
+							okSort = true
+						}
+					}
+				}
+			}
+		}
 		if why == "" {
 			why = "no sort.Slice on the returned slice"
 		}
